@@ -512,6 +512,12 @@ func c19JudgeRaw(fa c19Files, e c19Edit, top string, roundTrip bool) string {
 	if c19Wildcard(astA, e) {
 		tag += "_wildcard"
 	}
+	okTag := "ok"
+	if strings.HasSuffix(tag, "_wildcard") {
+		// the oracle cannot see a binding that silently changed to another
+		// value of the same resolved content; the validator can
+		okTag = "ok_wildcard"
+	}
 	if e.Kind == "remove_out" && c19OutputUsed(astA, e.Callable, e.Param, 0) {
 		// outside the property: a used output cannot be removed without changing
 		// what its consumers see; the edit must still not crash
@@ -564,7 +570,7 @@ func c19JudgeRaw(fa c19Files, e c19Edit, top string, roundTrip bool) string {
 		if d := c19SameRenamed(ga, gc, "", "", "$"); d != "" {
 			return fmt.Sprintf("FAIL %s_roundtrip_differs %s %s.%s -> %s and back: call graph differs at %s", tag, e.Kind, e.Callable, e.Param, e.New, d)
 		}
-		return "ok"
+		return okTag
 	}
 	switch e.Kind {
 	case "rename":
@@ -580,7 +586,7 @@ func c19JudgeRaw(fa c19Files, e c19Edit, top string, roundTrip bool) string {
 			return fmt.Sprintf("FAIL %s_callgraph %s %s.%s: %s", tag, e.Kind, e.Callable, e.Param, d)
 		}
 	}
-	return "ok"
+	return okTag
 }
 
 func c19Oracle(args []string) {
